@@ -753,9 +753,9 @@ def case_fails(case, res, geoms):
 
 
 def own_violated(res):
-    """does the output of lcapy's SOLVE STAGE ALONE (graph units, before the node spacing is applied)
-    violate lcapy's OWN constraint structure (graph edges / lineq constraints / common nodes)?
-    Classification support: localises a violation in Graph.solve / Lineq.solve."""
+    """Items of lcapy's OWN constraint structure (graph edges / lineq constraints / common nodes) that the
+    output of lcapy's SOLVE STAGE ALONE (graph units, before the node spacing is applied) violates.
+    Each item: dict(ax, kind in {'ge','eq','link','raised'}, cpt, f, t, size, slack, how_f, how_t)."""
     gr = res.get('graphs')
     if not gr:
         return None
@@ -763,26 +763,125 @@ def own_violated(res):
     for ax in ('x', 'y'):
         g = gr[ax]
         if g.get('solve_error'):
-            bad.append((ax, 'solve raised', g['solve_error']))
+            bad.append({'ax': ax, 'kind': 'raised', 'error': g['solve_error'], 'line': g.get('solve_error_line')})
             continue
         sol = g.get('solved')
         if sol is None:
             continue
+        how = g.get('assigned') or {}
+        walked = g.get('walked') or {}
         for cpt, f, t, size, stretch in g['edges']:
             if f[0] not in sol or t[0] not in sol:
                 continue
-            diff = Fraction(sol[t[0]]) - Fraction(sol[f[0]])
-            d = Fraction(size)
-            if (stretch and diff < d) or (not stretch and diff != d):
-                bad.append((ax, cpt, f, t, size))
+            slack = Fraction(sol[t[0]]) - Fraction(sol[f[0]]) - Fraction(size)
+            if (stretch and slack < 0) or (not stretch and slack != 0):
+                bad.append({'ax': ax, 'kind': 'ge' if stretch else 'eq', 'cpt': cpt, 'f': f, 't': t, 'size': size,
+                            'slack': fstr(slack), 'how_f': how.get('|'.join(f)), 'how_t': how.get('|'.join(t)),
+                            'f_on_walk_of_t': '|'.join(f) in walked.get('|'.join(t), ['|'.join(f)]),
+                            't_on_walk_of_f': '|'.join(t) in walked.get('|'.join(f), ['|'.join(t)])})
         for n, members in g['cnodes'].items():
             if n in sol and members[0] in sol and Fraction(sol[n]) != Fraction(sol[members[0]]):
-                bad.append((ax, 'link', n, members[0], 0))
+                bad.append({'ax': ax, 'kind': 'link', 'f': [n], 't': [members[0]]})
     return bad
 
 
-def shrink(case, geoms, workdir, rounds=12):
-    """delete netlist lines while the real placement still violates a constraint"""
+RIGID = ('fixed', 'longest')
+
+
+def graph_signature(item):
+    """root-cause signature of one violated >= edge of the graph placer, from the stage that positioned
+    its end points (recorded by the observation-only trace in tools/impl_schem.py), or None"""
+    hf, ht = item.get('how_f'), item.get('how_t')
+    if hf == 'dangling' or ht == 'dangling':
+        # positioned by the start/end ("dangling") branch of assign_stretchy1 / path_to_closest_known
+        return 'Graph.assign_stretchy:stretchy-ge-violated:dangling-path'
+    if (str(ht).startswith('between') and not item.get('f_on_walk_of_t', True)) or \
+            (str(hf).startswith('between') and not item.get('t_on_walk_of_f', True)):
+        # one end was positioned by the two-known-nodes branch along a walked path that does not contain
+        # this edge: path_to_closest_known selected another placed neighbour (it minimises pos - size)
+        return 'Graph.assign_stretchy:stretchy-ge-violated:unwalked-neighbour'
+    if 'between:offpath' in (hf, ht):
+        # positioned along a walked path that is not the longest path whose stretch was used
+        return 'Graph.assign_stretchy:stretchy-ge-violated:offpath-stretch'
+    if hf in RIGID and ht in RIGID:
+        # both ends were positioned rigidly (critical path / fixed offsets): the longest-path stage treats
+        # fixed edges as one-directional
+        return 'Graph.assign_fixed:stretchy-ge-violated:rigid-fixed-chain'
+    return None
+
+
+def classify(case, res, spec_bad):
+    """key of a violating placement.  It is a KNOWN-finding key only for the specific situations recorded in
+    known_findings.json:
+      graph : every violated spec constraint is a '>=' of a stretchy component, the solve stage alone violates
+              only '>=' edges of lcapy's own (Coq-validated) graph, and every such edge has one of the three
+              root-cause signatures above;
+      lineq : the solve stage alone violates its own constraints and (a) the LU factor has a rounding-residue
+              pivot, or (b) an off-diagonal pivot (equation left out), or (c) only stretchy constraints are
+              violated and their negative slacks are exactly the 'Negative stretch' values lcapy warned about.
+    A violated '=' (fixed) constraint of the graph placer, unequal linked coordinates, a wrong direction
+    (own structure satisfied but specification violated), missing/duplicate positions ... are always new."""
+    method = case['method']
+    new_key = 'placement:%s' % method
+    if 'positions' in spec_bad:
+        return 'positions:' + method, {}
+    own = own_violated(res)
+    det = {'solve_stage_violates_own_constraints': (own or [])[:8]}
+    if not own:
+        return new_key, det
+    spec_kinds = set(c[3] for ax in ('x', 'y') for c in spec_bad.get(ax, []))
+    if method == 'graph':
+        if spec_kinds != {'ge'} or any(o['kind'] != 'ge' for o in own):
+            return new_key, det
+        sigs = set(graph_signature(o) for o in own)
+        if None in sigs:
+            return new_key, det
+        det['signatures'] = sorted(sigs)
+        return sorted(sigs)[0], det
+    if method == 'lineq':
+        gr = res['graphs']
+        sigs = set()
+        for ax in ('x', 'y'):
+            items = [o for o in own if o['ax'] == ax]
+            if not items:
+                continue
+            g = gr[ax]
+            if any(o['kind'] in ('raised', 'link') for o in items):
+                sigs.add(None)
+                continue
+            if g.get('lu_tiny_pivots'):
+                sigs.add('Lineq.solve:float-rank')
+            elif g.get('lu_offdiag_rows'):
+                sigs.add('Lineq.solve:equation-dropped')
+            elif all(o['kind'] == 'ge' for o in items) and \
+                    set(Fraction(o['slack']) for o in items) == set(Fraction(x) for x in g.get('neg_warned', [])):
+                sigs.add('Lineq.solve:negative-stretch')
+            else:
+                sigs.add(None)
+        if None in sigs or not sigs:
+            return new_key, det
+        if 'Lineq.solve:negative-stretch' in sigs and spec_kinds - {'ge'} and sigs == {'Lineq.solve:negative-stretch'}:
+            return new_key, det
+        det['signatures'] = sorted(sigs)
+        return sorted(sigs)[0], det
+    return new_key, det
+
+
+def spec_bad_of(case, res, geoms):
+    ev = evaluate(case, res, geoms)
+    b = {}
+    if ev['fx']:
+        b['x'] = [list(map(str, ev['cx'][i])) for i in ev['fx']]
+    if ev['fy']:
+        b['y'] = [list(map(str, ev['cy'][i])) for i in ev['fy']]
+    if ev['nonfinite']:
+        b['positions'] = {'nonfinite': ev['nonfinite']}
+    return b
+
+
+def shrink(case, geoms, workdir, rounds=12, key=None):
+    """delete netlist lines while the real placement still violates a constraint AND the violation keeps
+    the same classification key (so that a new kind of violation cannot shrink into a known one)"""
     if 'lines' not in case:
         return case
     cur = case
@@ -791,12 +890,20 @@ def shrink(case, geoms, workdir, rounds=12):
         if n <= 1:
             break
         cands = [sub_case(cur, [i for i in range(n) if i != k]) for k in range(n)]
-        ress = core.run_impl('impl_schem.py', [send_of(c, workdir) for c in cands])
+        ress = core.run_impl('impl_schem.py', [send_of(c, workdir, graphs=True) for c in cands])
         nxt = None
         for c, r in zip(cands, ress):
-            if case_fails(c, r, geoms):
-                nxt = c
-                break
+            if not case_fails(c, r, geoms):
+                continue
+            if key is not None:
+                try:
+                    k2, _ = classify(c, r, spec_bad_of(c, r, geoms))
+                except Exception:
+                    continue
+                if k2 != key:
+                    continue
+            nxt = c
+            break
         if nxt is None:
             break
         cur = nxt
@@ -1296,83 +1403,42 @@ def run(tier='quick', replay=None):
             violations.append({'key': 'tikz:' + fingerprint(cases[k]),
                                'what': 'generated TikZ does not contain each node/component once at the computed positions (%d case(s))' % len(tikz_bad),
                                'case': public_case(cases[k]), 'problems': probs, 'tikz': results[k].get('tikz'), 'found_input': True})
-        # classification of violating placements: does a candidate fix remove the violation?
+        # classification of violating placements by violated-constraint kind and root-cause signature
         if failing_cases:
-            sends = []
-            for k, bad in failing_cases:
-                c = cases[k]
-                pc = dict(send_of(c, w.dir, graphs=True))
-                pc['patches'] = ['graph_repair'] if c['method'] == 'graph' else ['lineq_keep_fixed']
-                sends.append(pc)
-            pres = core.run_impl('impl_schem.py', sends)
-            def classify(c, r, pr, bad):
-                """(key, details): a violating placement is attributed to a known solver defect only when the
-                output of lcapy's solve stage alone violates lcapy's own constraint structure, or when the
-                Lineq.add candidate fix removes the violation"""
-                fixed = ('error' not in pr) and not case_fails(c, pr, geoms)
-                neg = any('Negative stretch' in x for x in (list(r.get('warnings', [])) + list(pr.get('warnings', []) if 'error' not in pr else [])))
-                selfrep = ('conflict' in r.get('stdout', '')) or ('Inconsistent' in r.get('stdout', ''))
-                own = own_violated(r)
-                own_p = own_violated(pr) if 'error' not in pr else None
-                if 'positions' in bad:
-                    key = 'positions:' + c['method']
-                elif c['method'] == 'graph' and own:
-                    key = 'Graph.assign_stretchy'
-                elif c['method'] == 'lineq' and fixed:
-                    key = 'Lineq.add'
-                elif c['method'] == 'lineq' and (own or own_p):
-                    key = 'Lineq.solve'
-                else:
-                    key = 'placement:' + c['method']
-                return key, {'removed_by_candidate_fix': fixed, 'negative_stretch_warned': neg, 'self_reported': selfrep,
-                             'solve_stage_violates_own_constraints': [list(map(str, o)) for o in ((own or []) + (own_p or []))][:6]}
-
-            def patched_send(c):
-                pc = dict(send_of(c, w.dir, graphs=True))
-                pc['patches'] = ['graph_repair'] if c['method'] == 'graph' else ['lineq_keep_fixed']
-                return pc
-
-            def bad_of(c, r):
-                ev = evaluate(c, r, geoms)
-                b = {}
-                if ev['fx']:
-                    b['x'] = [list(map(str, ev['cx'][i])) for i in ev['fx']]
-                if ev['fy']:
-                    b['y'] = [list(map(str, ev['cy'][i])) for i in ev['fy']]
-                if ev['nonfinite']:
-                    b['positions'] = {'nonfinite': ev['nonfinite']}
-                return b
-
             classified = {}
-            for (k, bad), pr in zip(failing_cases, pres):
-                key, det = classify(cases[k], results[k], pr, bad)
-                classified.setdefault(key, []).append((k, bad, det))
-            final = {}
+            for k, bad in failing_cases:
+                c, r = cases[k], results[k]
+                sb = spec_bad_of(c, r, geoms)
+                if 'positions' in bad:
+                    sb['positions'] = bad['positions']
+                key, det = classify(c, r, sb)
+                classified.setdefault(key, []).append((k, sb, det))
             for key, lst in classified.items():
-                # one reproducer per class: the smallest failing schematic, shrunk, and classified again
+                # one reproducer per class: the smallest failing schematic, shrunk while it keeps its class
                 lst.sort(key=lambda t: len(cases[t[0]].get('lines', [])))
-                k, bad, det = lst[0]
-                c = cases[k]
-                small = shrink(c, geoms, w.dir, rounds=10 if tier == 'quick' else 30) if 'lines' in c else c
-                skey, sdet, sbad = key, det, bad
+                k, sb, det = lst[0]
+                c, r = cases[k], results[k]
+                small = shrink(c, geoms, w.dir, rounds=10 if tier == 'quick' else 30, key=key) if 'lines' in c else c
+                sdet, ssb, sr = det, sb, r
                 if small is not c:
-                    r2, p2 = core.run_impl('impl_schem.py', [send_of(small, w.dir, graphs=True), patched_send(small)])
-                    if 'error' not in r2 and case_fails(small, r2, geoms):
-                        sbad = bad_of(small, r2)
-                        skey, sdet = classify(small, r2, p2, sbad)
-                    else:
-                        small = c
+                    r2 = core.run_impl('impl_schem.py', [send_of(small, w.dir, graphs=True)])[0]
+                    ok2 = 'error' not in r2 and case_fails(small, r2, geoms)
+                    if ok2:
+                        ssb = spec_bad_of(small, r2, geoms)
+                        k2, sdet = classify(small, r2, ssb)
+                        ok2 = (k2 == key)
+                        sr = r2
+                    if not ok2:
+                        small, sdet, ssb, sr = c, det, sb, r
                 res.count('class_' + key, len(lst))
-                final.setdefault(skey, []).append((small, c, sbad, sdet, len(lst), [cases[t[0]] for t in lst[1:6]], results[k]))
-            for skey, items in final.items():
-                small, c, sbad, sdet, n, others, r = items[0]
-                vkey = skey if not skey.startswith(('placement:', 'positions:')) else '%s:%s' % (skey, fingerprint(small))
-                res.counterexamples.append({'case': public_case(small), 'violated': sbad, 'class': skey, 'instances': n})
-                v = {'key': vkey, 'what': 'real %s placement violates the hint constraints (%d schematic(s) in this run)' % (c['method'], sum(i[4] for i in items)),
-                     'case': public_case(small), 'violated': sbad,
+                vkey = key if not key.startswith(('placement:', 'positions:')) else '%s:%s' % (key, fingerprint(small))
+                res.counterexamples.append({'case': public_case(small), 'violated': ssb, 'class': key, 'instances': len(lst)})
+                v = {'key': vkey, 'what': 'real %s placement violates the hint constraints (%d schematic(s) in this run)' % (c['method'], len(lst)),
+                     'case': public_case(small), 'violated': ssb,
+                     'lcapy_positions': {n: [e.get('x'), e.get('y')] for n, e in sr['nodes'].items()},
                      'original_case': public_case(c) if small is not c else None,
-                     'lcapy_said_on_original': r.get('stdout', '')[:400], 'found_input': True,
-                     'other_instances': [public_case(o).get('lines') for o in others],
+                     'lcapy_said': sr.get('stdout', '')[:400], 'found_input': True,
+                     'other_instances': [public_case(cases[t[0]]).get('lines') for t in lst[1:6]],
                      'how': './check C20 --replay <this file>'}
                 v.update(sdet)
                 violations.append(v)
@@ -1383,8 +1449,10 @@ def run(tier='quick', replay=None):
             if c.get('_error') and c.get('_kind') in ('generated', 'corpus', 'probe', 'network', 'replay'):
                 sib = byid.get(c['id'].replace('_lineq', '_graph')) if c['id'].endswith('_lineq') else None
                 sib_ok = c.get('_kind') == 'corpus' or (sib is not None and 'error' not in sib[1])
-                if c['method'] == 'lineq' and sib_ok and re.search(r'schemlineqplacer\.py", line \d+, in solve', c.get('_tb', '')):
-                    key = 'Lineq.solve'
+                if c['method'] == 'lineq' and sib_ok and re.search(r'schemlineqplacer\.py", line \d+, in solve', c.get('_tb', '')) \
+                        and c['_error'].startswith('LinAlgError') and 'inv(Ur)' in c.get('_tb', ''):
+                    # the sub-matrix of "basic" columns picked from the LU factor is singular
+                    key = 'Lineq.solve:singular-basis'
                 elif 'NetlistIsNone' in c['_error'] and c.get('layout') == 'ladder' and re.fullmatch(r'[A-Za-z]+\([0-9.]+\)', c.get('net', '')):
                     # LadderMaker.__call__ on a network that is a single component
                     key = 'LadderMaker.__call__:single-component'
